@@ -72,6 +72,23 @@ def replay(col, case):
             col.violation("rh-vmr-not-inverse", dict(rep, observed=float(back)))
     except Exception as ex:
         col.violation("rh-vmr-raises-" + type(ex).__name__, dict(rep, observed=repr(ex)[:200]))
+    # a saturation function that hands back a STORED array (a lookup table, a memoised field): the table is the caller's
+    table = np.array([305.5, 611.0, 1222.0])
+    keep = table.copy()
+    try:
+        stored = lambda T: table
+        Tarr = np.array([280.0, 290.0, 300.0])
+        first = np.asarray(A.relative_humidity2vmr(v, 50.0, Tarr, e_eq=stored), dtype=float)
+        second = np.asarray(A.relative_humidity2vmr(v, 50.0, Tarr, e_eq=stored), dtype=float)
+        back = np.asarray(A.vmr2relative_humidity(first, 50.0, Tarr, e_eq=stored), dtype=float)
+        col.count(2)
+        want = fl(case["rh2x"]) * keep / 305.5
+        if not np.array_equal(table, keep):
+            col.violation("rh-vmr-overwrites-the-callers-saturation-table", dict(rep, observed=table.tolist()))
+        elif not allclose(first, want, 1e-11) or not np.array_equal(first, second) or (v > 0 and not allclose(back, [v] * 3, 1e-11)):
+            col.violation("rh-vmr-wrong-with-stored-table", dict(rep, expected=want.tolist(), observed=[first.tolist(), second.tolist(), back.tolist()]))
+    except Exception as ex:
+        col.violation("rh-vmr-raises-" + type(ex).__name__ + "-stored-table", dict(rep, observed=repr(ex)[:200]))
     # ... and with the default saturation function of both converters (below and above the triple point)
     for T in (233.15, 260.0, 273.16, 300.0):
         try:
@@ -132,6 +149,11 @@ def blend(col, case):
                     field = np.stack([np.roll(arr, r) for r in range(reps)])
                     field = field if shape == "2d" else field.reshape(2, 3, len(arr))
                     got = np.asarray(A.e_eq_mixed_mk(field.copy()))
+                    # the same field in Fortran order and as a transposed view: position decides, not memory layout
+                    for lname, alt in (("fortran-order", np.asfortranarray(field)), ("transposed-view", np.ascontiguousarray(field.T).T)):
+                        g2 = np.asarray(A.e_eq_mixed_mk(alt))
+                        if g2.shape != got.shape or not np.array_equal(g2, got):
+                            col.violation("mixed-depends-on-memory-layout-" + shape, dict(rep, layout=lname, observed=g2.tolist()))
                     if got.shape != field.shape:
                         col.violation("mixed-wrong-shape-" + shape, dict(rep, observed=list(got.shape)))
                         continue
